@@ -1,14 +1,17 @@
 package main
 
 import (
+	"context"
 	"database/sql"
 	"encoding/json"
 	"fmt"
 	"os"
+	"path/filepath"
 	"strconv"
 	"strings"
 	"sync"
 	"time"
+	"unicode/utf8"
 
 	_ "github.com/akrennmair/updog/driver"
 	"github.com/akrennmair/updog/verifhook"
@@ -161,6 +164,8 @@ type SqlCase struct {
 	Data    *DataSpec `json:"data"`
 	DSNOpts string    `json:"dsn_opts"`
 	Queries []SqlQ    `json:"queries"`
+	ViaLink bool      `json:"via_link,omitempty"` // the DSN names the index through a symbolic link
+	Grpc    bool      `json:"grpc,omitempty"`     // the DSN is grpc://<an updog server on the file>: same rows, same errors
 }
 
 type SqlQ struct {
@@ -189,6 +194,12 @@ func (a Arg) text() string {
 	return unhx(a.S)
 }
 
+// updogBinAvailable: the cmd/updog binary is built by ./check for the properties that need a server process
+func updogBinAvailable() bool {
+	_, err := os.Stat(updogBin)
+	return err == nil
+}
+
 func runSqlCase(o *Oracle, c *SqlCase, rep *Report, prop string) {
 	rows := c.Data.Materialize()
 	base := scratch(fmt.Sprintf("sql-%d.updog", rep.Evaluations))
@@ -208,7 +219,22 @@ func runSqlCase(o *Oracle, c *SqlCase, rep *Report, prop string) {
 	o.Send("idx build fast")
 	path := freshCopy(base)
 	defer os.Remove(path)
-	db, err := sql.Open("updog", "file:"+path+c.DSNOpts)
+	dsn := "file:" + path + c.DSNOpts
+	if c.ViaLink {
+		link := path + ".lnk"
+		os.Remove(link)
+		os.Symlink(filepath.Base(path), link)
+		defer os.Remove(link)
+		dsn = "file:" + link + c.DSNOpts
+		rep.Count("dsn-via-symlink")
+	}
+	if c.Grpc {
+		srv := startServer(path, strings.Contains(c.DSNOpts, "lrucache=true"), strings.Contains(c.DSNOpts, "preload=true"))
+		defer srv.stop()
+		dsn = "grpc://" + srv.addr
+		rep.Count("dsn-grpc")
+	}
+	db, err := sql.Open("updog", dsn)
 	if err != nil {
 		rep.Violate(Violation{Kind: "input", Signature: prop + ":sql-open-failed", What: err.Error(), Expected: "opens", Actual: err.Error(), Case: c})
 		return
@@ -258,9 +284,14 @@ func runSqlCase(o *Oracle, c *SqlCase, rep *Report, prop string) {
 		for ei, args := range argSets {
 			vals := make([]any, len(args))
 			hexArgs := make([]string, len(args))
+			wire := utf8.ValidString(text)
 			for i, a := range args {
 				vals[i] = a.val()
 				hexArgs[i] = hx(a.text())
+				wire = wire && utf8.ValidString(a.text())
+			}
+			if c.Grpc && !wire {
+				continue // protobuf strings are UTF-8: such a query cannot be sent at all
 			}
 			got := rowsString(qr, text, vals...)
 			// expectation: the model binds the arguments, then the model index answers the bound query
@@ -269,8 +300,8 @@ func runSqlCase(o *Oracle, c *SqlCase, rep *Report, prop string) {
 			switch {
 			case strings.HasPrefix(bound, "err"):
 				want = "err"
-			case q.Prepared && len(args) != maxPh:
-				want = "err" // database/sql enforces NumInput on prepared statements
+			case (q.Prepared || c.Grpc) && len(args) != maxPh:
+				want = "err" // database/sql enforces NumInput on prepared statements; the gRPC data source has no direct path, so every query is one
 			default:
 				f := strings.Fields(bound)
 				tree := strings.Join(f[2:], " ") // "ok <maxph> <tree> G n fields"
@@ -403,6 +434,7 @@ func genSqlQuery(r *Rng, pool *leafPool, withPh bool) SqlQ {
 }
 
 func runC12(rep *Report, r *Rng, tier string) {
+	defer envProbes(rep, "C12", true)
 	rep.Rule = "datasets (identifier column names) x query texts rendered from random trees (0..6 group-by columns, matching nothing/everything, unknown columns) x DSN option sets {none, preload, lrucache size 0/2000, preload+lrucache}; through database/sql: Columns, ColumnTypes.DatabaseTypeName, Next/Scan, Err compared with the model's rows (newRows o Execute); non-trivial = result with at least one row other than a single zero count; distinct by (dataset, dsn, text)"
 	o := StartOracle()
 	defer o.Close()
@@ -428,6 +460,7 @@ func runC12(rep *Report, r *Rng, tier string) {
 		if i < 2 {
 			rep.Sample(c)
 		}
+		c.ViaLink = i%4 == 1
 		runSqlCase(o, c, rep, "C12")
 	}
 	if tier == "thorough" {
@@ -517,6 +550,20 @@ func runC11(rep *Report, r *Rng, tier string) {
 				}
 			}
 		}
+	}
+	// the same bindings through the driver's gRPC data source
+	ng := 4
+	if tier == "thorough" {
+		ng = 30
+	}
+	for i := 0; i < ng && updogBinAvailable(); i++ {
+		d := genDataSpecUTF8(r, 200)
+		pool := poolOf(d.Materialize())
+		c := &SqlCase{Data: d, DSNOpts: "", Grpc: true}
+		for k := 0; k < 12; k++ {
+			c.Queries = append(c.Queries, genSqlQuery(r, pool, true))
+		}
+		runSqlCase(o, c, rep, "C11")
 	}
 	rep.OracleCalls = o.n
 }
@@ -758,6 +805,8 @@ func newDrvEnv(o *Oracle, r *Rng) *drvEnv {
 }
 
 func runC17(rep *Report, r *Rng, tier string) {
+	defer envProbes(rep, "C17", true)
+	defer cancelledStatements(rep, r, "C17")
 	rep.Rule = "histories over {sql.Open(file DSN with one of 3 option strings, pool size 0/1/2/8), Query, Prepare+Stmt.Query, Close, 16-goroutine burst on one handle} on 2 files and up to 4 handles (reopening after the last close, several handles per file, same file with different option strings); every op under a watchdog; every query compared with the model's rows; after the last close of a file an exclusive bbolt.Open must succeed within 1.5 s; non-trivial = query/burst at history position >= 2; distinct by history prefix"
 	o := StartOracle()
 	defer o.Close()
@@ -974,5 +1023,144 @@ func init() {
 		o := StartOracle()
 		defer o.Close()
 		runDrvCase(newDrvEnv(o, NewRng(1)), &c, rep)
+	}
+}
+
+// runGrpcDriverCases: the driver's gRPC data source (an updog server on the file) returns the library's rows; with
+// connection churn (no idle connections kept, several goroutines) every answer still equals the model's
+func runGrpcDriverCases(o *Oracle, rep *Report, r *Rng, tier string, prop string) {
+	ng := 4
+	if tier == "thorough" {
+		ng = 30
+	}
+	for i := 0; i < ng && updogBinAvailable(); i++ {
+		d := genDataSpecUTF8(r, 300)
+		pool := poolOf(d.Materialize())
+		c := &SqlCase{Data: d, DSNOpts: Pick(r, dsnOptionSets), Grpc: true}
+		for k := 0; k < 12; k++ {
+			c.Queries = append(c.Queries, genSqlQuery(r, pool, r.Chance(1, 3)))
+		}
+		runSqlCase(o, c, rep, prop)
+	}
+}
+
+// driverCacheIsolation: through database/sql, two DIFFERENT index files opened with the SAME option string (LRU cache
+// on) — each data source must answer from its own data however the driver manages caches; also the same path
+// regenerated with other data between two lifetimes of a handle. Compared with an uncached library index per file.
+func driverCacheIsolation(rep *Report, r *Rng, prop string) {
+	mk := func(name string, shift int) (string, []map[string]string) {
+		var rows []map[string]string
+		for i := 0; i < 120; i++ {
+			rows = append(rows, map[string]string{"status": []string{"ok", "error", "slow"}[(i+shift)%3], "zone": fmt.Sprint((i * (shift + 1)) % 4)})
+		}
+		p := scratch(name)
+		os.Remove(p)
+		if _, err := buildIndexFile("mem", rows, p); err != nil {
+			infra("build: %v", err)
+		}
+		return p, rows
+	}
+	pa, _ := mk("iso-a.updog", 0)
+	pb, _ := mk("iso-b.updog", 1)
+	defer os.Remove(pa)
+	defer os.Remove(pb)
+	texts := []string{`status = "error"`, `status = "error" & zone = "1"`, `status = "ok" | zone = "2"`, `^ status = "slow"`, `status = "error" & ( zone = "1" | zone = "3" )`}
+	libCount := func(path, text string) string {
+		idx, _, err := openIdx(path, false, -1)
+		if err != nil {
+			return "open-err"
+		}
+		defer idx.Close()
+		pq, err := verifhook.ParseQuery(text)
+		if err != nil {
+			return "parse-err"
+		}
+		return safeExecute(idx, verifhook.ToQuery(pq))
+	}
+	for _, opts := range []string{"?lrucache=true&lrucachesize=1000000", "?lrucache=true&lrucachesize=1000000&preload=true"} {
+		dba, err1 := sql.Open("updog", "file:"+pa+opts)
+		dbb, err2 := sql.Open("updog", "file:"+pb+opts)
+		if err1 != nil || err2 != nil {
+			continue
+		}
+		for _, text := range texts {
+			for _, side := range []struct {
+				db   *sql.DB
+				path string
+			}{{dba, pa}, {dbb, pb}, {dba, pa}} {
+				var n int64
+				got := "err"
+				if err := side.db.QueryRow(text).Scan(&n); err == nil {
+					got = fmt.Sprintf("ok %d", n)
+				}
+				want := libCount(side.path, text)
+				rep.Eval(fmt.Sprintf("iso|%s|%s|%s", opts, text, filepath.Base(side.path)), true)
+				rep.Count("driver-cache-isolation-queries")
+				if got != want {
+					rep.Violate(Violation{Kind: "history", Signature: prop + ":differs-from-fresh", What: fmt.Sprintf("sql driver, two index files opened with the same options %q: query %q on %s", opts, text, filepath.Base(side.path)), Expected: want, Actual: got, Case: map[string]any{"dsn_opts": opts, "text": text}})
+				}
+			}
+		}
+		dba.Close()
+		dbb.Close()
+	}
+}
+
+// cancelledStatements: a prepared statement executed through QueryContext with a deadline that ends while the query is
+// still being evaluated, then every handle on the data source is closed and the file opened again. However the driver
+// treats the context, nothing may keep using the closed index (a fault there kills the whole process; ./check reports
+// a process crash as a violation of the property being checked) and later handles answer correctly.
+func cancelledStatements(rep *Report, r *Rng, prop string) {
+	var rows []map[string]string
+	for i := 0; i < 40000; i++ {
+		rows = append(rows, map[string]string{"a": fmt.Sprint(i % 211), "b": fmt.Sprint(i % 97), "c": fmt.Sprint((i * 7) % 53)})
+	}
+	p := scratch("cancel.updog")
+	os.Remove(p)
+	if _, err := buildIndexFile("mem", rows, p); err != nil {
+		infra("build: %v", err)
+	}
+	defer os.Remove(p)
+	text := `^ a = "nope" ; a, b, c`
+	for round, opts := range []string{"", "?preload=true"} {
+		res := watchdog(120*time.Second, func() string {
+			db, err := sql.Open("updog", "file:"+p+opts)
+			if err != nil {
+				return "open: " + err.Error()
+			}
+			st, err := db.Prepare(text)
+			if err != nil {
+				db.Close()
+				return "prepare: " + err.Error()
+			}
+			for _, d := range []time.Duration{time.Millisecond, 5 * time.Millisecond, 30 * time.Millisecond} {
+				ctx, cancel := context.WithTimeout(context.Background(), d)
+				rs, err := st.QueryContext(ctx)
+				if err == nil {
+					for rs.Next() {
+					}
+					rs.Close()
+				}
+				cancel()
+			}
+			st.Close()
+			db.Close()
+			time.Sleep(400 * time.Millisecond) // anything still evaluating now works on a closed index
+			db2, err := sql.Open("updog", "file:"+p+opts)
+			if err != nil {
+				return "reopen: " + err.Error()
+			}
+			defer db2.Close()
+			var n int64
+			if err := db2.QueryRow(`a = "3"`).Scan(&n); err != nil {
+				return "query after reopen: " + err.Error()
+			}
+			return fmt.Sprintf("ok %d", n)
+		})
+		rep.Eval(fmt.Sprintf("cancelled-statements-%d", round), true)
+		rep.Count("cancelled-statement-rounds")
+		if want := fmt.Sprintf("ok %d", (40000+211-1-3)/211); res != want {
+			rep.Violate(Violation{Kind: "history", Signature: prop + ":" + strings.SplitN(res, ":", 2)[0], What: "prepared statement run under deadlines, all handles closed, data source reopened (dsn options " + opts + ")", Expected: want, Actual: res, Case: map[string]any{"dsn_opts": opts}})
+		}
 	}
 }
